@@ -3,6 +3,10 @@
 Every parameter without a default is a REQUIRED key of the corresponding node; the schema the check uses is read
 from these signatures with `inspect` / `dataclasses` only (mc/checks/c06_schema.py), never from jsonargparse.
 No class takes **kwargs: `dict_kwargs` is the documented escape hatch and is not judged by C06.
+Every mapping node kind has at least one key of three or more letters (`yaw`, `quo`, `mul`, `kap`, `vee`, `sub`,
+`leaf`, `items`, `inner`, ...): the foreign-key name classes "truncated" (a defined key minus its last letter) and
+"extended" (a defined key plus one letter) need a key whose truncation is itself not defined and is longer than one
+letter (one-letter tokens occur in error texts by accident: "doesn't").
 """
 from dataclasses import dataclass
 from typing import Dict, List, NotRequired, Optional, TypedDict, Union
@@ -11,13 +15,13 @@ from typing import Dict, List, NotRequired, Optional, TypedDict, Union
 @dataclass
 class Pt:
     x: int
-    y: int = 2
+    yaw: int = 2
 
 
 @dataclass
 class Inner:
     p: int
-    q: str = "q"
+    quo: str = "q"
 
 
 @dataclass
@@ -28,14 +32,14 @@ class Outer:
 
 
 class Leaf:
-    def __init__(self, n: int, m: int = 0):
-        self.n, self.m = n, m
+    def __init__(self, n: int, mul: int = 0):
+        self.n, self.mul = n, mul
 
 
 class LeafB(Leaf):
-    def __init__(self, n: int, k: str = "k"):
+    def __init__(self, n: int, kap: str = "k"):
         super().__init__(n)
-        self.k = k
+        self.kap = kap
 
 
 class Base:
@@ -69,7 +73,7 @@ class TD(TypedDict):
     """A mapping with fixed keys validated by the type-hint code itself (no per-class parser)."""
 
     u: int
-    v: NotRequired[str]
+    vee: NotRequired[str]
 
 
 PtOrInt = Union[Pt, int]
